@@ -307,7 +307,9 @@ def rand_proportion(rng: random.Random) -> Any:
     if r < 0.7:
         return Proportion(rng.choice((Fraction(1, 2), Fraction(1, 3), 0.5, 0.25, 1, Fraction(3, 4), 0.3333)),
                           preposition=rng.choice(("", " of the", " *", " * ")))
-    return Proportion(rng.choice((0.5, 0.25, Fraction(1, 4), 0.1, 1)), percentage=True,
+    # incl. percentages that are not a whole number of percent (12 1/2 %, 2.5 %, 33 1/3 %)
+    return Proportion(rng.choice((0.5, 0.25, Fraction(1, 4), 0.1, 1, Fraction(1, 8), 0.025, Fraction(1, 3), 0.125,
+                                  Fraction(1, 6), 0.0625)), percentage=True,
                       preposition=rng.choice(("%", "% of the", " % <of>")))
 
 
